@@ -10,6 +10,7 @@ package transaction
 
 import (
 	"fmt"
+	"reflect"
 	"sort"
 	"strings"
 	"testing"
@@ -161,7 +162,18 @@ type c34State struct {
 
 func c34Canon(s *c34State) []byte {
 	var b strings.Builder
-	fmt.Fprintf(&b, "ord=%d heap=", s.q.currOrder)
+	// scalar private fields (e.g. the insertion counter) are dumped by reflection so that the harness
+	// still builds when such a field is renamed or removed
+	rv := reflect.ValueOf(s.q).Elem()
+	for i := 0; i < rv.NumField(); i++ {
+		switch rv.Field(i).Kind() {
+		case reflect.Uint64, reflect.Uint32, reflect.Uint, reflect.Int, reflect.Int64:
+			if rv.Type().Field(i).Name != "pollInterval" {
+				fmt.Fprintf(&b, "%s=%v ", rv.Type().Field(i).Name, rv.Field(i))
+			}
+		}
+	}
+	b.WriteString("heap=")
 	for _, it := range s.q.pq {
 		fmt.Fprintf(&b, "(%s p%d o%d i%d)", c34TxName(it.data), it.priority, it.order, it.index)
 	}
@@ -177,7 +189,7 @@ func c34Canon(s *c34State) []byte {
 func TestVerif_C34_seq(t *testing.T) {
 	r := verifmc.NewReport("C34", "seq", "model_checking")
 	defer r.Write()
-	r.Rule = "BFS over sequential Push/Pop/Peek/Remove/Exists/Pending/Len histories on the real PriorityQueue (3 transactions x 2 priorities) against a list ordered by (priority desc, insertion asc); after every operation the queue is also drained on a replayed copy and the yield order compared (each transaction at most once)"
+	r.Rule = "BFS over sequential Push/Pop/Peek/Remove/Exists/Pending/Len histories on the real PriorityQueue (3 transactions x 2 priorities), from the empty queue and from two populated queues, against a list ordered by (priority desc, insertion asc); after every operation the queue is also drained on a replayed copy and the yield order compared (each transaction at most once)"
 	var ops []verifmc.Op
 	for _, n := range []string{"a", "b", "c"} {
 		for _, p := range []uint64{1, 2} {
@@ -188,38 +200,54 @@ func TestVerif_C34_seq(t *testing.T) {
 	for _, n := range []string{"a", "b", "c"} {
 		ops = append(ops, c34Op{kind: "remove", name: n})
 	}
-	h := &verifmc.Hist[*c34State]{
-		Fresh: func() *c34State { return &c34State{q: NewPriorityQueue(), m: &c34Model{}} },
-		Ops:   func(s *c34State) []verifmc.Op { return ops },
-		Apply: func(s *c34State, op verifmc.Op) string {
-			o := op.(c34Op)
-			got, want := c34ApplyReal(s.q, o), c34ApplyModel(s.m, o)
-			if got != want {
-				return fmt.Sprintf("%s: returned %s, model %s (model items %v)", o.Name(), got, want, s.m.sorted())
-			}
-			return ""
-		},
-		Check: func(s *c34State) string {
-			for _, o := range []c34Op{{kind: "len"}, {kind: "pending"}, {kind: "peek"}, {kind: "exists", name: "a"}, {kind: "exists", name: "b"}, {kind: "exists", name: "c"}} {
-				if got, want := c34ApplyReal(s.q, o), c34ApplyModel(s.m.clone(), o); got != want {
-					return fmt.Sprintf("%s: returned %s, model %s", o.Name(), got, want)
+	// start states: the empty queue and two populated ones (so that "several equal-priority entries,
+	// shrink, push again" is 3 operations away instead of 6)
+	starts := [][]c34Op{nil,
+		{{kind: "push", name: "a", prio: 1}, {kind: "push", name: "b", prio: 1}, {kind: "push", name: "c", prio: 1}},
+		{{kind: "push", name: "a", prio: 2}, {kind: "push", name: "b", prio: 1}, {kind: "push", name: "c", prio: 1}, {kind: "pop"}}}
+	for _, start := range starts {
+		start := start
+		h := &verifmc.Hist[*c34State]{
+			Fresh: func() *c34State {
+				st := &c34State{q: NewPriorityQueue(), m: &c34Model{}}
+				for _, o := range start {
+					if got, want := c34ApplyReal(st.q, o), c34ApplyModel(st.m, o); got != want {
+						panic("start state: " + o.Name() + " returned " + got + ", model " + want)
+					}
 				}
-			}
-			// drain (the state object is discarded afterwards): yields follow the order, each once
-			m := s.m.clone()
-			for i := 0; i <= len(s.m.items); i++ {
-				got, want := c34ApplyReal(s.q, c34Op{kind: "pop"}), c34ApplyModel(m, c34Op{kind: "pop"})
+				return st
+			},
+			Ops: func(s *c34State) []verifmc.Op { return ops },
+			Apply: func(s *c34State, op verifmc.Op) string {
+				o := op.(c34Op)
+				got, want := c34ApplyReal(s.q, o), c34ApplyModel(s.m, o)
 				if got != want {
-					return fmt.Sprintf("drain pop #%d: yielded %s, model %s", i, got, want)
+					return fmt.Sprintf("%s: returned %s, model %s (model items %v)", o.Name(), got, want, s.m.sorted())
 				}
-			}
-			r.Outcome(fmt.Sprintf("len=%d", len(s.m.items)))
-			return ""
-		},
-		Canon: c34Canon,
-		Depth: verifmc.Pick(5, 7),
+				return ""
+			},
+			Check: func(s *c34State) string {
+				for _, o := range []c34Op{{kind: "len"}, {kind: "pending"}, {kind: "peek"}, {kind: "exists", name: "a"}, {kind: "exists", name: "b"}, {kind: "exists", name: "c"}} {
+					if got, want := c34ApplyReal(s.q, o), c34ApplyModel(s.m.clone(), o); got != want {
+						return fmt.Sprintf("%s: returned %s, model %s", o.Name(), got, want)
+					}
+				}
+				// drain (the state object is discarded afterwards): yields follow the order, each once
+				m := s.m.clone()
+				for i := 0; i <= len(s.m.items); i++ {
+					got, want := c34ApplyReal(s.q, c34Op{kind: "pop"}), c34ApplyModel(m, c34Op{kind: "pop"})
+					if got != want {
+						return fmt.Sprintf("drain pop #%d: yielded %s, model %s", i, got, want)
+					}
+				}
+				r.Outcome(fmt.Sprintf("len=%d", len(s.m.items)))
+				return ""
+			},
+			Canon: c34Canon,
+			Depth: verifmc.Pick(5, 7),
+		}
+		h.Explore(r)
 	}
-	h.Explore(r)
 }
 
 // ---- concurrent part ----
